@@ -436,7 +436,10 @@ def regress_and_pinned(prop, tier, journal):
     """The replay tier and the pinned inputs of the known findings, executed in a child process (so that an input that kills
     the interpreter is reported instead of taking the run down).  Everything returned is picklable."""
     mod = load_check(prop)
-    reg, nreg = run_regress(mod, prop, tier, journal)
+    if os.environ.get("VERIF_NO_REGRESS"):      # sensitivity experiments only (what does the search find without the pinned inputs?)
+        reg, nreg = [], 0
+    else:
+        reg, nreg = run_regress(mod, prop, tier, journal)
     out = [(path, arm.name, pickle.dumps(case, 4), [(f.key, f.msg) for f in ev.failures], ev.evals) for path, arm, case, ev in reg]
     with open(journal, "w") as fh:
         fh.write("pinned inputs of the known findings")
@@ -467,6 +470,7 @@ def main(prop, tier, replay_path=None, jobs=None):
     arms = mod.arms(tier)
     scale = float(os.environ.get("VERIF_SCALE", "1") or "1")   # sensitivity screening only; registered commands never set it
     only = [x for x in os.environ.get("VERIF_ONLY_ARMS", "").split(",") if x]      # sensitivity experiments only, never set by registered commands
+    all_arms = arms
     if only:
         arms = [a for a in arms if a.name in only]
     if scale != 1:
@@ -563,7 +567,7 @@ def main(prop, tier, replay_path=None, jobs=None):
                 failures[(r["arm"], key)]["count"] = total
 
     # regress tier
-    armmap = {a.name: a for a in arms}
+    armmap = {a.name: a for a in all_arms}
     regress_fail = []
     nreg = 0
     pinned_results = None
